@@ -59,6 +59,16 @@ def step (s : St') (op : List String) (impl : String) : LineOut St' :=
              else if impl == "leaving-not-observed" || impl == "node-error" then none else none
     if impl == "leaving-not-observed" || impl == "node-error" then { state := s, model := none, note := some "setup-failed" }
     else { state := s, model := some expect, monitor := m }
+  | ["leaveduringjoin"] =>
+    -- leave:R,join:R <state>: a Leave called while an earlier Join is in flight, then a second Join
+    if impl == "node-error" then { state := s, model := none, note := some "setup-failed" } else
+    let (st, r) := callSeq P .alive .leave
+    let (_, rj) := callSeq P st .join
+    let expect := s!"leave:{showRes r},join:{match rj with | .ok => "attempted" | .err => "refused"} {st.toString}"
+    let m := if (impl.splitOn "join:attempted").length > 1 then
+        some ("join-not-refused", "a join called after a leave had begun (while an earlier join was still in flight) was not refused")
+      else if (impl.splitOn "panic-").length > 1 then some ("panic", impl) else none
+    { state := s, model := some expect, monitor := m }
   | ["leavestall"] =>
     -- obs s0,s1,…|leave:R,join:R with the leave's broadcasts timing out: states forward only, the join refused
     if impl == "node-error" then { state := s, model := none, note := some "setup-failed" } else
